@@ -45,6 +45,83 @@ func blockBytes(j int, rng *rand.Rand) []byte {
 	}
 }
 
+// alignStream adjusts the last block until the stored stream (file size minus the 60-byte header) is a
+// multiple of 4096; it measures with the real writer in a scratch directory.
+func alignStream(blocks [][]byte, rng *rand.Rand, rsum, dsum []byte, text bool) bool {
+	dir, err := ioutil.TempDir("", "verif-cache-align-")
+	if err != nil {
+		return false
+	}
+	defer os.RemoveAll(dir)
+	hook := cache.VerifStep
+	cache.VerifStep = nil
+	defer func() { cache.VerifStep = hook }()
+	measure := func() int {
+		f, err := cache.Create(dir, sha1.New(), rsum, dsum)
+		if err != nil {
+			return -1
+		}
+		for _, b := range blocks {
+			f.Write(b)
+		}
+		name := f.Name()
+		if f.Close() != nil {
+			return -1
+		}
+		st, err := os.Stat(name)
+		if err != nil {
+			return -1
+		}
+		os.Remove(name)
+		return int(st.Size()) - 60
+	}
+	last := len(blocks) - 1
+	if text {
+		letters := func(n int) []byte {
+			p := make([]byte, n)
+			for i := range p {
+				p[i] = "acgt"[rng.Intn(4)]
+			}
+			return p
+		}
+		blocks[last] = letters(24000)
+		for try := 0; try < 4000; try++ {
+			n := measure()
+			if n < 0 {
+				return false
+			}
+			if n%4096 == 0 {
+				return true
+			}
+			d := 4096 - n%4096
+			if d > 40 {
+				blocks[last] = append(blocks[last], letters(d*3)...)
+			} else {
+				blocks[last] = append(blocks[last], letters(1)...)
+			}
+		}
+		return false
+	}
+	for try := 0; try < 12; try++ {
+		n := measure()
+		if n < 0 {
+			return false
+		}
+		if n%4096 == 0 {
+			return true
+		}
+		d := 4096 - n%4096
+		if d > 2048 && len(blocks[last]) > 4096 {
+			blocks[last] = blocks[last][:len(blocks[last])-(n%4096)]
+		} else {
+			extra := make([]byte, d)
+			rng.Read(extra)
+			blocks[last] = append(blocks[last], extra...)
+		}
+	}
+	return false
+}
+
 func leafName(rsum, dsum []byte) string {
 	h := sha1.New()
 	h.Write(append(append([]byte(nil), rsum...), dsum...))
@@ -120,6 +197,34 @@ func runCacheCase(c J, caseNo int, full bool, emit func(J)) {
 	}
 	defer func() { cache.VerifStep = nil }()
 
+	// the blocks the client will write; for every other multi-block body the last block is trimmed so
+	// that the stored stream is an exact multiple of 4096 bytes (reads that stop at a buffer boundary)
+	nw := 0
+	for _, av := range hist {
+		if asStr(av.(map[string]interface{})["a"]) == "write" {
+			nw++
+		}
+	}
+	blocks := make([][]byte, nw)
+	for j := range blocks {
+		blocks[j] = blockBytes(j+1, rng)
+	}
+	aligned := false
+	extended := false
+	for _, av := range hist {
+		if asStr(av.(map[string]interface{})["a"]) == "extend" {
+			extended = true
+		}
+	}
+	if nw >= 3 && extended {
+		// compressible text: every read of the inflater goes through its 4096-byte buffer, so a stream of
+		// k*4096 bytes ends exactly where a buffer fill ends
+		aligned = alignStream(blocks, rng, rsum[:], dsum[:], true)
+	} else if nw >= 3 && caseNo%2 == 0 {
+		aligned = alignStream(blocks, rng, rsum[:], dsum[:], false)
+	}
+	emit(J{"ev": "note", "case": id, "aligned": aligned, "blocks": nw})
+
 	var f *cache.File
 	var want []byte
 	nwrites := 0
@@ -138,7 +243,7 @@ func runCacheCase(c J, caseNo int, full bool, emit func(J)) {
 			lastWriter = i
 		case "write":
 			nwrites++
-			blk := blockBytes(nwrites, rng)
+			blk := blocks[nwrites-1]
 			want = append(want, blk...)
 			if _, werr := f.Write(blk); werr != nil {
 				emit(J{"ev": "error", "case": id, "what": "write: " + werr.Error()})
